@@ -53,6 +53,7 @@ func jsText(x interface{}) string {
 func (p *Prog) JS() string {
 	var sb strings.Builder
 	sb.WriteString("var b = _.bindings;\n")
+	emitted := map[string]string{}
 	if p.TouchProps {
 		sb.WriteString("if (_.props) { _.props.touched = (_.props.touched || 0) + 1; delete _.props.mid; }\n")
 	}
@@ -61,7 +62,14 @@ func (p *Prog) JS() string {
 		case "emit":
 			sb.WriteString("_.out(" + jsText(op.J) + ");\n")
 		case "emitb":
-			sb.WriteString(fmt.Sprintf("_.out({\"got\": (b[%s] === undefined) ? null : b[%s]});\n", jsText(op.K), jsText(op.K)))
+			// a script that emits the same object again after changing it: every emission is what the object was then
+			if w, again := emitted[op.K]; again {
+				sb.WriteString(fmt.Sprintf("%s.got = (b[%s] === undefined) ? null : b[%s]; _.out(%s);\n", w, jsText(op.K), jsText(op.K), w))
+			} else {
+				w := fmt.Sprintf("w%d", len(emitted))
+				emitted[op.K] = w
+				sb.WriteString(fmt.Sprintf("var %s = {\"got\": (b[%s] === undefined) ? null : b[%s]}; _.out(%s);\n", w, jsText(op.K), jsText(op.K), w))
+			}
 		case "set":
 			sb.WriteString(fmt.Sprintf("b[%s] = %s;\n", jsText(op.K), jsText(op.J)))
 		case "copy":
